@@ -30,7 +30,9 @@
 //! whole file-dictionary directory), the response, whether anything was published, then every document
 //! is checked again (didChange) and its verdicts compared with the model (`addfk` / `lintk` ops inside
 //! the `dio` line carry the two bits `scheme()=="untitled"` / `to_file_path().is_ok()` computed with the
-//! real `Url`) and judged (classes `c07-untitled-url-file-dict-add-ignored`,
+//! real `Url`) and judged (class `c07-untitled-url-file-dict-add-ignored`; a command from an `untitled:`
+//! URL must leave every dictionary file byte for byte as it was: class `file-written-for-untitled-url` —
+//! until repo commit 861d597 `untitled:/p` replaced the dictionary of `/p`, the retired class
 //! `c07-untitled-url-overwrites-file-dict`).
 //! The direct path (`run_history`) performs the handler's steps `load_dict → append_word → save_dict →
 //! update_document_from_file (= reload all dictionaries, rebuild the linter if the merged dictionary
@@ -1775,7 +1777,6 @@ impl UrlScenario {
 }
 
 const URL_FINDING_IGNORED: &str = "c07-untitled-url-file-dict-add-ignored";
-const URL_FINDING_OVERWRITE: &str = "c07-untitled-url-overwrites-file-dict";
 
 fn url_commands(cx: &SrvCtx, ls: &mut LsSession, sdir: &Path, sc: &UrlScenario, tag: usize) -> Result<(SrvOut, Vec<(&'static str, bool)>), crate::lsclient::LsError> {
     use crate::lsclient::{did_change, did_open};
@@ -1846,9 +1847,14 @@ fn url_commands(cx: &SrvCtx, ls: &mut LsSession, sdir: &Path, sc: &UrlScenario, 
             None => out.fails.push(("server-no-publication".into(), format!("didOpen of document {} ({}) published nothing", d, uris[d]))),
         }
     }
-    // what was asked of each dictionary: (word, command index, URL of the command's document was `untitled:`)
+    // what was asked of each dictionary FILE: (word, command index) — commands from `untitled:` URLs ask
+    // nothing of any file (`save_file_dictionary` returns before writing, repo commit 861d597)
     let mut user = Ledger::default();
-    let mut slot_adds: BTreeMap<usize, Vec<(String, usize, bool)>> = BTreeMap::new();
+    let mut slot_adds: BTreeMap<usize, Vec<(String, usize)>> = BTreeMap::new();
+    // the whole file-dictionary directory, name → bytes
+    let snapshot = || -> BTreeMap<String, Vec<u8>> {
+        std::fs::read_dir(&fdir).map(|r| r.filter_map(|e| e.ok()).map(|e| (e.file_name().to_string_lossy().into_owned(), std::fs::read(e.path()).unwrap_or_default())).collect()).unwrap_or_default()
+    };
     for (i, a) in sc.adds.iter().enumerate() {
         let idx = i + 1;
         let uri = uris[a.doc].clone();
@@ -1856,6 +1862,7 @@ fn url_commands(cx: &SrvCtx, ls: &mut LsSession, sdir: &Path, sc: &UrlScenario, 
         let n_before = ls.publications(&uri).len();
         let last_before = ls.last_publication(&uri).cloned();
         let files_before = count_files();
+        let snap_before = snapshot();
         let klabel = sc.docs[a.doc].kind.label();
         // the command as the client gets it: the code action the server offers on the reported word
         // (offered for every document it could open, whatever the URL); built by hand when there is none
@@ -1883,7 +1890,9 @@ fn url_commands(cx: &SrvCtx, ls: &mut LsSession, sdir: &Path, sc: &UrlScenario, 
         }
         if a.file {
             let dp = dict_path(a.doc);
-            let order: Vec<Vec<char>> = dp.as_ref().map(|p| std::fs::read_to_string(p).unwrap_or_default().lines().map(cs).collect()).unwrap_or_default();
+            // the `words_iter` order of what was saved — nothing is saved for the `untitled` scheme (the file of the
+            // same path, if any, is somebody else's and must be unchanged: O below, and the model's `F … L …`)
+            let order: Vec<Vec<char>> = if kinds[a.doc].0 { vec![] } else { dp.as_ref().map(|p| std::fs::read_to_string(p).unwrap_or_default().lines().map(cs).collect()).unwrap_or_default() };
             for o in &order {
                 chars.extend(o.iter());
             }
@@ -1891,9 +1900,18 @@ fn url_commands(cx: &SrvCtx, ls: &mut LsSession, sdir: &Path, sc: &UrlScenario, 
             op_txt.push(format!("addfk , {} , {} , {} , {}", kbits(a.doc), name_of(a.doc), chars_field(&cs(&a.w)), list_tokens(&order)).trim_end().to_string());
             let fd = match &dp { Some(p) => fd_tokens(cx.rt, p), None => "F absent L err".to_string() };
             res_txt.push(format!("{} N {}", fd, n_files));
-            if kinds[a.doc].1 {
-                slot_adds.entry(sc.docs[a.doc].slot).or_default().push((a.w.clone(), idx, kinds[a.doc].0));
-            } else {
+            if kinds[a.doc].0 {
+                // O: the `untitled` scheme, with or without a path: every dictionary file is as it was, byte for byte
+                out.o_cases += 1;
+                if snapshot() != snap_before {
+                    out.fails.push(("file-written-for-untitled-url".into(), format!("command #{} (HarperAddToFileDict `{}` on {}) changed the file-dictionary directory ({} → {} files)", idx, a.w, uri, files_before, n_files)));
+                } else {
+                    out.counts.push(format!("url:HarperAddToFileDict on a {} document left every dictionary file untouched", klabel));
+                }
+            }
+            if kinds[a.doc].1 && !kinds[a.doc].0 {
+                slot_adds.entry(sc.docs[a.doc].slot).or_default().push((a.w.clone(), idx));
+            } else if !kinds[a.doc].1 {
                 // O: a URL without a path: no file may appear anywhere
                 out.o_cases += 1;
                 if n_files != files_before {
@@ -1943,16 +1961,14 @@ fn url_commands(cx: &SrvCtx, ls: &mut LsSession, sdir: &Path, sc: &UrlScenario, 
                     continue;
                 }
                 let src = kinds[b.doc];
-                let same_file = src.1 && kinds[d].1 && sc.docs[b.doc].slot == sc.docs[d].slot;
+                // the command wrote the dictionary file this document reads (never for a command from an `untitled:` URL)
+                let same_file = src.1 && !src.0 && kinds[d].1 && sc.docs[b.doc].slot == sc.docs[d].slot;
                 let own = b.doc == d || (same_file && !kinds[d].0);
                 if own {
                     // the word was added for THIS document (or for another URL of the same path, whose dictionary this `file:` document reads)
                     if !flagged { out.counts.push(format!("url:file-dictionary word accepted in its {} document", sc.docs[d].kind.label())); continue; }
-                    let overwritten = slot_adds.get(&sc.docs[d].slot).is_some_and(|v| v.iter().any(|(_, ci, unt)| *unt && *ci > bi + 1));
                     let class = if kinds[d].0 && b.doc == d {
                         URL_FINDING_IGNORED
-                    } else if src.1 && overwritten {
-                        URL_FINDING_OVERWRITE
                     } else if in_user || FstDictionary::curated().contains_word(&cs(&b.w)) {
                         "added-word-flagged"
                     } else {
@@ -1962,7 +1978,7 @@ fn url_commands(cx: &SrvCtx, ls: &mut LsSession, sdir: &Path, sc: &UrlScenario, 
                     out.fails.push((class.into(), format!("after command #{}: `{}` (HarperAddToFileDict #{} on {}) is reported in document {} ({}) at its next check", idx, b.w, bi + 1, uris[b.doc], d, uris[d])));
                 } else {
                     // another document: the word must stay reported, unless one of ITS dictionaries has it
-                    let also = in_user || sc.adds.iter().take(idx).any(|c| c.file && same(&c.w) && kinds[c.doc].1 && kinds[d].1 && !kinds[d].0 && sc.docs[c.doc].slot == sc.docs[d].slot);
+                    let also = in_user || sc.adds.iter().take(idx).any(|c| c.file && same(&c.w) && kinds[c.doc].1 && !kinds[c.doc].0 && kinds[d].1 && !kinds[d].0 && sc.docs[c.doc].slot == sc.docs[d].slot);
                     if also || FstDictionary::curated().contains_word(&cs(&b.w)) { continue; }
                     if flagged { out.counts.push("url:file-dictionary word still reported in another document".into()); } else {
                         out.fails.push(("file-word-leaks".into(), format!("after command #{}: `{}` was added to the file dictionary of document {} ({}) only, but document {} ({}) no longer reports it", idx, b.w, b.doc, uris[b.doc], d, uris[d])));
@@ -1976,16 +1992,14 @@ fn url_commands(cx: &SrvCtx, ls: &mut LsSession, sdir: &Path, sc: &UrlScenario, 
             let actual: Vec<String> = cx.load_or_empty(&dp).words_iter().map(st).collect();
             out.o_cases += 1;
             let mut ok = true;
-            for (w, ci, _) in adds {
+            for (w, ci) in adds {
                 if !actual.contains(w) {
                     ok = false;
-                    let overwritten = adds.iter().any(|(_, cj, unt)| *unt && cj > ci);
-                    let class = if overwritten { URL_FINDING_OVERWRITE } else { "word-lost" };
-                    out.fails.push((class.into(), format!("after command #{} the file dictionary of path slot {} no longer holds `{}` (HarperAddToFileDict #{}); it reloads to {:?}", idx, slot, w, ci, actual)));
+                    out.fails.push(("word-lost".into(), format!("after command #{} the file dictionary of path slot {} no longer holds `{}` (HarperAddToFileDict #{}); it reloads to {:?}", idx, slot, w, ci, actual)));
                 }
             }
             for w in &actual {
-                if !adds.iter().any(|(x, _, _)| x == w) {
+                if !adds.iter().any(|(x, _)| x == w) {
                     ok = false;
                     out.fails.push(("word-invented".into(), format!("after command #{} the file dictionary of path slot {} holds `{}`, which nobody added", idx, slot, w)));
                 }
@@ -2004,7 +2018,8 @@ fn corpus_url() -> Vec<UrlScenario> {
         // the audit's case: HarperAddToFileDict on an unsaved VS Code buffer, next to an ordinary file
         UrlScenario { docs: vec![d(UKind::Untitled, 0)], adds: vec![a(true, 0, "zqxv")], extra: vec!["jqvz".into()], on_disk: false },
         UrlScenario { docs: vec![d(UKind::File, 0), d(UKind::Untitled, 1)], adds: vec![a(true, 1, "zqxv"), a(true, 0, "qxzv"), a(true, 1, "vkqz"), a(false, 1, "xqzk")], extra: vec!["jqvz".into()], on_disk: false },
-        // untitled:/path next to file:///path (same file_dict_name): the untitled add REPLACES the dictionary
+        // untitled:/path next to file:///path (same file_dict_name): the untitled add must leave that dictionary alone
+        // (until repo commit 861d597 it REPLACED it by the one new word)
         UrlScenario { docs: vec![d(UKind::File, 0), d(UKind::UntitledPath, 0)], adds: vec![a(true, 0, "zqxv"), a(true, 0, "qxzv"), a(true, 1, "vkqz")], extra: vec![], on_disk: true },
         UrlScenario { docs: vec![d(UKind::UntitledPath, 2)], adds: vec![a(true, 0, "zqxv"), a(true, 0, "qxzv")], extra: vec!["jqvz".into()], on_disk: false },
         UrlScenario { docs: vec![d(UKind::UntitledPath, 0), d(UKind::File, 1)], adds: vec![a(true, 0, "zqxv"), a(true, 1, "qxzv"), a(false, 0, "vkqz")], extra: vec![], on_disk: true },
